@@ -43,6 +43,7 @@ type FuncSpec struct {
 	Props        []string
 	PanicAssumed []string
 	PanicsIf     []*Clause // specified panics: panic allowed exactly under these conditions
+	EnsuresLocal []*Clause // postconditions over locals: checked at every return the named locals reach
 	EntryAssumes []*Clause // global invariants assumed when the body starts (not demanded of callers); listed in evidence
 	CbEnsures    []*Clause // obligations on every closure this function passes as a callback (over the callback parameters)
 	Callbacks    map[string]*FuncSpec
@@ -112,7 +113,7 @@ var labelRe = regexp.MustCompile(`^\[([A-Za-z0-9_.\-]+)\]\s*`)
 
 var clauseKeywords = map[string]bool{"decreases": true, "inlinecalls": true, "assumes": true, "ghostset": true, "ghostexit": true, "preserves": true, "requires": true, "ensures": true, "modifies": true, "allocates": true,
 	"loop": true, "inline": true, "assume": true, "pure": true, "props": true, "panic_assumed": true,
-	"panics_if": true, "cbensures": true, "entryassumes": true, "callback": true, "nosafety": true, "params": true, "bounded": true}
+	"panics_if": true, "cbensures": true, "entryassumes": true, "ensureslocal": true, "callback": true, "nosafety": true, "params": true, "bounded": true}
 
 func newSpecs() *Specs {
 	return &Specs{Macros: map[string]string{}, Owned: map[string]bool{}, Funcs: map[string]*FuncSpec{}, Ghosts: map[string]*GhostDecl{}, SpecFuncs: map[string]*SpecFunc{}}
@@ -173,7 +174,7 @@ func (sp *Specs) loadSpecFile(path string) error {
 			stmts = append(stmts, stmt{strings.TrimSpace(t), nums[i]})
 			continue
 		}
-		if w == "scope" || w == "spec" || w == "owned" || w == "predicate" || w == "prove" || w == "protected" || w == "onwrite" || w == "ghost" || w == "ghostfield" || w == "specfunc" || w == "lemma" || clauseKeywords[w] {
+		if w == "scope" || w == "spec" || w == "owned" || w == "predicate" || w == "prove" || w == "protected" || w == "writeguard" || w == "onwrite" || w == "ghost" || w == "ghostfield" || w == "specfunc" || w == "lemma" || clauseKeywords[w] {
 			stmts = append(stmts, stmt{strings.TrimSpace(t), nums[i]})
 		} else if len(stmts) > 0 {
 			stmts[len(stmts)-1].text += " " + strings.TrimSpace(t)
@@ -240,14 +241,14 @@ func (sp *Specs) loadSpecFile(path string) error {
 				return errf("%v", err)
 			}
 			sp.OwnedDecl = append(sp.OwnedDecl, &Hook{Kind: "owned", Target: te, File: path, Line: s.line})
-		case "protected", "onwrite":
+		case "protected", "writeguard", "onwrite":
 			h := &Hook{Kind: w, File: path, Line: s.line, Src: rest}
 			for _, m := range tagRe.FindAllString(" "+rest, -1) {
 				h.Props = append(h.Props, strings.TrimSpace(m)[1:])
 			}
 			body := strings.TrimSpace(tagRe.ReplaceAllString(" "+rest, ""))
 			var tgt, tail string
-			if w == "protected" {
+			if w == "protected" || w == "writeguard" {
 				i := strings.Index(body, " by ")
 				if i < 0 {
 					return errf("protected TARGET by EXPR")
@@ -438,7 +439,7 @@ func parseClauseBody(rest, path string, line int) (*Clause, error) {
 
 func (sp *Specs) parseClause(fs *FuncSpec, w, rest, path string, line int) error {
 	switch w {
-	case "requires", "ensures", "panics_if", "assumes", "cbensures", "entryassumes":
+	case "requires", "ensures", "panics_if", "assumes", "cbensures", "entryassumes", "ensureslocal":
 		c, err := parseClauseBody(rest, path, line)
 		if err != nil {
 			return err
@@ -456,6 +457,11 @@ func (sp *Specs) parseClause(fs *FuncSpec, w, rest, path string, line int) error
 			fs.Ensures = append(fs.Ensures, c)
 		case "panics_if":
 			fs.PanicsIf = append(fs.PanicsIf, c)
+		case "ensureslocal":
+			if c.Label == "" {
+				c.Label = "lpost" + strconv.Itoa(len(fs.EnsuresLocal))
+			}
+			fs.EnsuresLocal = append(fs.EnsuresLocal, c)
 		case "entryassumes":
 			if c.Label == "" {
 				c.Label = "entry" + strconv.Itoa(len(fs.EntryAssumes))
